@@ -822,7 +822,14 @@ func c28CPUSeconds(pid int) float64 {
 // c28BusyFrame finds, in a runtime.Stack(all) dump, the goroutine that is
 // running/runnable inside refinery's request handling and returns its first
 // refinery frame.
-func c28BusyFrame(dump string) (frame, block string) {
+func c28BusyFrame(dump string) (frame, block string) { return c28BusyFrameIn(dump, true, "") }
+
+// c28BusyFrameIn: handlerOnly restricts the search to goroutines serving a
+// request (net/http conn or gRPC stream); preferPkg, when a frame of that
+// refinery package is on the busy stack, names the outermost named function of
+// that package instead of the innermost refinery frame (which moves around
+// inside a loop).
+func c28BusyFrameIn(dump string, handlerOnly bool, preferPkg string) (frame, block string) {
 	for _, blk := range strings.Split(dump, "\n\n") {
 		first := strings.SplitN(blk, "\n", 2)[0]
 		if !strings.HasPrefix(first, "goroutine ") || !(strings.Contains(first, "[running") || strings.Contains(first, "[runnable")) {
@@ -833,6 +840,21 @@ func c28BusyFrame(dump string) (frame, block string) {
 		}
 		if strings.Contains(blk, "TestC28Worker") {
 			continue
+		}
+		if handlerOnly && !strings.Contains(blk, "net/http.(*conn).serve") && !strings.Contains(blk, "google.golang.org/grpc.(*Server).") {
+			continue
+		}
+		if preferPkg != "" {
+			// the outermost named function of that package: the one whose loop spins
+			outer := ""
+			for _, l := range strings.Split(blk, "\n") {
+				if strings.HasPrefix(l, "github.com/honeycombio/refinery/"+preferPkg+".") && !strings.Contains(l, ".func") {
+					outer = c28ShortFunc(c28FuncName(l))
+				}
+			}
+			if outer != "" {
+				return outer, blk
+			}
 		}
 		_, ref := c28TopFrames(strings.Replace(blk, first, strings.Replace(first, "[runnable", "[running", 1), 1))
 		if ref != "" {
